@@ -8,3 +8,22 @@ func c20parse(src string) (evs []c20ev) {
 	p.Parse(&l)
 	return
 }
+
+// c20parseAfter: the SAME parser object parses prev first (events dropped), then src, without a new
+// Init in between - the way the package's own benchmark reuses a parser.
+func c20parseAfter(prev, src string) (evs []c20ev) {
+	var l Lexer
+	var p Parser
+	on := false
+	p.Init(func(t NodeType, offset, endoffset int) {
+		if on {
+			evs = append(evs, c20ev{int(t), offset, endoffset})
+		}
+	})
+	l.Init(prev)
+	p.Parse(&l)
+	on = true
+	l.Init(src)
+	p.Parse(&l)
+	return
+}
